@@ -41,7 +41,7 @@ equals the running hash, so flipping that bit gives the same root (3-transaction
 recorded); inherent to the Bitcoin Merkle tree.  The clause "altering the position makes verification fail" is kept without
 exclusion in `position-bound[1..64]`; `alter-pos[*]` and `blocks[1..64]` exclude exactly the predicate `position_bit_is_blind`.
 
-Known finding C08-P2 (reported through `reorg.cached-lookup`): a subscription update announcing a header for a height the
+Finding C08-P2 (found through `reorg.cached-lookup`, repaired in /repo by 2476d8e): a subscription update announcing a header for a height the
 wallet already has, linking to the wallet's header below it (competing block at the same height), overwrites the stored header
 without any refusal: the cache is not dropped and the transaction cached as verified at that height is still served verified.
 
@@ -1160,7 +1160,7 @@ class ReorgCachedLookup:
     subscription update announcing the new tip), then the same transactions are looked up again while the server still
     hands out the old proofs.  A transaction comes back verified iff the header NOW stored at its height still commits to it:
     every transaction of a replaced block — the lowest replaced one included — must come back unverified.
-    Known finding C08-P2 (`tip_replaced_without_refusal`) is reported from here"""
+    Finding C08-P2 (`tip_replaced_without_refusal`, repaired by 2476d8e) was found here"""
     bounded_only = True
     note = "original chain of 8 blocks x fork height 1..8 x new chain length fork+1..10 x sync / subscription entry (about 75 scenarios)"
     inputs = dict(fork=TInt(1, 8), newlen=TInt(2, 10), mode=TStr())
